@@ -98,6 +98,9 @@ func passTypes(b *built, sref *staticRef) (map[string]int, string) {
 		if t[0] < 0 || t[0] != t[1] {
 			continue
 		}
+		if sref.launders(k, t[0]) {
+			continue // typed by an interface-typed successor only: transparent (see launders)
+		}
 		for _, c := range sref.PassCands[k] {
 			if c == t[0] {
 				pt[k] = t[0]
@@ -415,6 +418,18 @@ func shapeOf(s *Spec, h *hit, policy int) string {
 			}
 		}
 	}
+	// a pass-through node that eino typed with the interface type of a successor (or of a branch
+	// condition) although only concretely typed producers feed it: the connections through it are
+	// judged against that interface type and a mismatch between two concrete ends is let through
+	if h.V.Class == "error-after-compile" {
+		b := build(s, identity(len(s.Calls), policy))
+		sr := refStatic(s)
+		for k, t := range b.inferred {
+			if t[0] == t[1] && sr.launders(k, t[0]) {
+				return "passthrough-typed-by-interface-successor"
+			}
+		}
+	}
 	handlerKind := func(k string) bool {
 		return k == "pre-handler" || k == "post-handler" || k == "handler-state"
 	}
@@ -661,6 +676,9 @@ func runCase(rep *mon.Reporter, idx int64, rng *mon.Rand) {
 			_, ptSig := passTypes(b, sref)
 			typings[ptSig] = true
 			for k, t := range b.inferred {
+				if t[0] == t[1] && sref.launders(k, t[0]) {
+					rep.Count("passthrough_typed_by_an_interface_successor_only_kept_transparent", 1)
+				}
 				if t[0] >= 0 {
 					rep.Count("passthrough_types_observed", 1)
 					in := false
@@ -712,6 +730,21 @@ func runCase(rep *mon.Reporter, idx int64, rng *mon.Rand) {
 				if _, ok := done[key]; ok {
 					return
 				}
+				// the open finding passthrough-typed-by-interface-successor shows in many constructions;
+				// once this process has shrunk and reported it a few times, further occurrences of exactly
+				// that shape (an accepted concrete mismatch through a pass-through node that eino typed
+				// from an interface-typed successor) are counted, not shrunk again
+				if h.V.Class == "error-after-compile" && launderReports >= 4 && h.V.Fail != nil && h.V.Fail.ViaPass {
+					if b := build(s, a); b.fns != nil {
+						for k, t := range b.inferred {
+							if t[0] == t[1] && sref.launders(k, t[0]) {
+								rep.Count("violations_of_the_reported_shape_passthrough_typed_by_interface_successor_not_shrunk_again", 1)
+								done[key] = launderSig
+								return
+							}
+						}
+					}
+				}
 				report(rep, s, a, h, done, key)
 			})
 		}
@@ -744,6 +777,11 @@ func runCase(rep *mon.Reporter, idx int64, rng *mon.Rand) {
 	}
 }
 
+const launderSig = "C07/error-after-compile/passthrough-typed-by-interface-successor"
+
+// launderReports: how often this process has reported launderSig (a child runs its cases sequentially).
+var launderReports int
+
 func report(rep *mon.Reporter, s *Spec, a attempt, h hit, done map[string]string, key string) {
 	ns, na := normalise(s, a)
 	min, mh := ns, &h
@@ -763,6 +801,9 @@ func report(rep *mon.Reporter, s *Spec, a attempt, h hit, done map[string]string
 	shape := shapeOf(min, mh, na.Policy)
 	sig := "C07/" + mh.V.Class + "/" + shape
 	done[key] = sig
+	if sig == launderSig {
+		launderReports++
+	}
 	var calls []string
 	for _, c := range min.Calls {
 		calls = append(calls, c.String())
